@@ -439,3 +439,25 @@ SPECS["C18"] = {
          "limits": {"quick": {"timeout": "600s"}, "thorough": {"timeout": "600s"}}},
     ],
 }
+
+
+SPECS["C19"] = {
+    "explanation": "The real chain DatagramParser.handleDatagram (event branch) -> CloudHandler.DispatchEvent (-> handleIncomingEvent -> handleInstanceInfo -> updateAndDispatchEvents on a cache miss) "
+                   "-> TagHandler.DispatchEvent -> BackendHandler.DispatchEvent / internalDispatchEvent (one goroutine per backend, semaphore, wait group; goroutines under the engine's "
+                   "cooperative scheduler) -> Backend.SendEvent, then WaitForEvents, with 0..3 recording backends, max-concurrent-events 1..3 symbolic, cache mode miss / negative hit / positive "
+                   "hit symbolic, lookup result instance-or-nothing symbolic. The event line is generated from symbolic pieces (title, text with or without an escaped newline, optional d:, k:, "
+                   "s:/p:/t:, #tag that may coincide with the static tag). Asserted: nothing reaches a backend before the lookup completed; each backend receives the event exactly once with "
+                   "title, text (newline restored), time (receipt time when absent), key, source type, priority, alert type; tags = own + static without duplicates + cloud tags after a "
+                   "successful lookup; source = sender address or instance id; both wait-group counters are back to 0 and the semaphore is empty after WaitForEvents; with 0 backends nothing "
+                   "blocks. The HTTP ingestion endpoint and forwarder mode are exercised by the C14 event entry (real EventHandler and dispatchEvent).",
+    "bounds": {"quick": "0..3 backends, 1..3 concurrent events, one event per run, fields of 1..3 bytes", "thorough": "same"},
+    "outside": ["concurrent senders and real goroutine interleavings", "the 20 s per-event timeout context (modelled as a context that is never cancelled)"],
+    "assumptions": STUBS_COMMON + [PF_STUB, TIME_MODEL, "context.WithTimeout/WithDeadline return a cancellable context whose deadline never fires"],
+    "jobs": [
+        {"pkg": "./pkg/statsd", "harness": "pkg/statsd", "mode": "machine",
+         "entries": {"quick": ["VerifC19_0", "VerifC19_1", "VerifC19_2", "VerifC19_3", "VerifC19_Twin"]},
+         "reach": {"VerifC19_2": ["after-lookup", "cache-hit", "delivered"]},
+         "twin": {"VerifC19_Twin": True},
+         "limits": {"quick": {"timeout": "600s"}, "thorough": {"timeout": "600s"}}},
+    ],
+}
